@@ -62,11 +62,11 @@ def optMax (m : Option Nat) (v : Nat) : Option Nat :=
   | none => some v
   | some a => some (Nat.max a v)
 
-/-- `Some(v) > m` on `Option<CrsqlDbVersion>`. -/
-def optLt (m : Option Nat) (v : Nat) : Bool :=
+/-- `Some(v) >= m` on `Option<CrsqlDbVersion>`. -/
+def optLe (m : Option Nat) (v : Nat) : Bool :=
   match m with
   | none => true
-  | some a => a < v
+  | some a => a ≤ v
 
 /-- `BookedVersions::contains_version` -/
 def containsVersion (b : Book) (v : Nat) : Bool :=
@@ -246,17 +246,18 @@ def Node.empty : Node := ⟨Book.empty, Durable.empty⟩
 (cr-sqlite, trusted). -/
 def setDbVersion (d : Option Nat) (v : Nat) : Option Nat := optMax d v
 
-/-- `crsql_db_versions` after the `process_empty_version` calls of one batch: only ends above the
-head the batch started with are written -/
+/-- `crsql_db_versions` after the `process_empty_version` calls of one batch: only ends that are
+not below the head the batch started with are written (`if Some(end) >= max`; a partial that is
+about to be dropped may be all that recorded the head so far) -/
 def dbvAfter (max0 dbv : Option Nat) (rs : List (Nat × Nat)) : Option Nat :=
-  rs.foldl (fun d r => if optLt max0 r.2 then setDbVersion d r.2 else d) dbv
+  rs.foldl (fun d r => if optLe max0 r.2 then setDbVersion d r.2 else d) dbv
 
 /-- is the row's version covered by one of the ranges -/
 def coveredBy (rs : List (Nat × Nat)) (v : Nat) : Bool := rs.any (fun r => r.1 ≤ v && v ≤ r.2)
 
 /-- `process_multiple_changes` for whole versions (`Changeset::Empty { versions }`, or a complete
 changeset) that passed the `contains_all` guard, in batch order: `process_empty_version` when the
-end is above the head the batch started with (for applied changes cr-sqlite moves
+end is not below the head the batch started with (for applied changes cr-sqlite moves
 `crsql_db_versions` itself), `check_buffered_meta_to_clear` → the clear job for those versions
 (run to completion here), `snapshot()` → `insert_db(collect(rs))` → commit → `commit_snapshot`,
 then every partial inside a processed range is dropped from memory.  An error rolls the
